@@ -44,6 +44,9 @@ Only these lexical normalisations are applied to copied text (each counted, see 
      likewise `RECV.and_then(|PAT| EXPR)` becomes `(match RECV { Some(PAT) => EXPR, None => None })`.
      With option `result-map` the same for a Result: `(match RECV { Ok(PAT) => Ok(BODY), Err(e) => Err(e) })`, BODY may be a block
      (the closure is called exactly once, in the Ok case, so inlining it keeps its side effects where they were)
+  N10 statements `LHS |= E;` / `LHS &= E;` (bool operands: Verus has no `|`/`&` on bool) become `if E { LHS = true; }` /
+     `if !(E) { LHS = false; }`: E is evaluated exactly once in both forms and the assignment leaves LHS unchanged in the other
+     case; for a non-bool LHS the result does not type-check
 No expression is rewritten otherwise. Ghost text (loop invariants, proof blocks) named in the unit template is spliced
 into bodies at loop ordinals / after exact statement texts, always on the same output line so that line numbers of the
 body still correspond to the source (annotation in place; ghost code only, erased at compile time).
@@ -402,7 +405,7 @@ class Normaliser:
         self.counts = {'N1_visibility': 0, 'N2_attrs_docs_dropped': 0, 'N3_ret_named_contract_spliced': 0,
                        'N4_cfg_statistics_or_allow_dropped': 0, 'N4b_cfg_attribute_dropped_code_kept': 0,
                        'N5_ref_pattern_desugared': 0,
-                       'N6_impl_iterator_return_type': 0, 'N7_tail_loop_break_value': 0, 'N8_map_constructor_then_try': 0, 'N9_assert_eq_as_assert': 0, 'N11_option_map_closure_inlined': 0, 'G_ghost_splices': 0}
+                       'N6_impl_iterator_return_type': 0, 'N7_tail_loop_break_value': 0, 'N8_map_constructor_then_try': 0, 'N9_assert_eq_as_assert': 0, 'N10_bool_compound_assign': 0, 'N11_option_map_closure_inlined': 0, 'G_ghost_splices': 0}
 
     def vis(self, s):
         def rep(m):
@@ -923,6 +926,39 @@ def expand(template_path, repo):
                             body = (body[:m11.start()] + f'(match {m11.group(1)} {{ Some({pat11}) => {some11}, None => None }})'
                                     + body[pc + 1:])
                         norm.counts['N11_option_map_closure_inlined'] += 1
+                # N10
+                while True:
+                    sc10 = Scan(body)
+                    m10 = None
+                    for mm in re.finditer(r'(?m)^([ \t]*)([A-Za-z_][\w\.]*)\s*(\|=|&=)\s*', body):
+                        if sc10.is_code(mm.start(2)):
+                            m10 = mm
+                            break
+                    if not m10:
+                        break
+                    i10 = m10.end()
+                    end10 = None
+                    while i10 < len(body):
+                        if sc10.code[i10]:
+                            ch10 = body[i10]
+                            if ch10 in '([{' and i10 in sc10.match:
+                                i10 = sc10.match[i10] + 1
+                                continue
+                            if ch10 == ';':
+                                end10 = i10
+                                break
+                        i10 += 1
+                    if end10 is None:
+                        raise AnchorLost(f'{rel}: fn {qn}: N10: unterminated compound assignment')
+                    rhs10 = body[m10.end():end10]
+                    rhs_flat = ' '.join(rhs10.split()) if rhs10.count('\n') == 0 else rhs10
+                    lhs10 = m10.group(2)
+                    if m10.group(3) == '|=':
+                        rep = f'{m10.group(1)}if {rhs10} {{ {lhs10} = true; }}'
+                    else:
+                        rep = f'{m10.group(1)}if !({rhs10}) {{ {lhs10} = false; }}'
+                    body = body[:m10.start()] + rep + body[end10 + 1:]
+                    norm.counts['N10_bool_compound_assign'] += 1
                 # N9
                 while True:
                     sc9 = Scan(body)
